@@ -230,6 +230,8 @@ MUTANTS["C10"] = [
     ("exclusive-flag-dropped", "annet/gen.py", "                exclusive=not ctx.args.no_acl_exclusive,\n                with_annotations=ctx.add_annotations,\n            )\n            if ctx.args.acl_safe:", "                exclusive=False,\n                with_annotations=ctx.add_annotations,\n            )\n            if ctx.args.acl_safe:"),
     ("indented-hash-ends-block", "annet/annlib/tabparser.py", '        if "#" in comments and line.startswith("#"):', '        if "#" in comments and stripped.startswith("#"):'),
     ("cant_delete-default-any-interface-word", "annet/annlib/rbparser/acl.py", '(lambda raw_rule: [raw_rule.startswith("interface")])', '(lambda raw_rule: ["interface" in raw_rule])'),
+    ("multi-line-yield-margin-ignores-first-line", "annet/generators/base.py", "        rows = textwrap.dedent(text).strip().split(\"\\n\")", "        import inspect\n        rows = inspect.cleandoc(text).split(\"\\n\")"),
+    ("exclusivity-also-for-device-rows", "annet/gen.py", "            old = (old and patching.apply_acl(old, acl_rules))", "            old = (old and patching.apply_acl(old, acl_rules, exclusive=not ctx.args.no_acl_exclusive))"),
 ]
 
 MUTANTS["C14"] = [
